@@ -1,6 +1,6 @@
 CONSTANTS
   Ctx <- MidCtx
-  AddIds <- GraphIds
+  AddIds <- MidIds
   BeginIds <- GraphBegin
   MaxList = 1
   MaxBuf = 1
